@@ -270,6 +270,18 @@ func cmdRun(args []string) int {
 					rep = (c.Status == "violation" && o.Status == "violation" && o.Label == c.Label) || (c.Status == "panic-escape" && o.Status == "panic")
 				}
 			}
+			// Go randomises map iteration per run and the engine iterates in insertion order: a
+			// counterexample that depends on the order of a map range (snapshot dumps, client-id
+			// lookup) reproduces natively only in some runs. Any native run that shows the same
+			// violated assertion confirms it, so a few more attempts are made before the
+			// counterexample is reported as an engine mismatch.
+			for try := 0; !rep && try < 8; try++ {
+				if o2, _, err := p.NativeReplay(dir, name, []explore.NativeVector{vecs[vi-1]}, 20*time.Minute); err == nil && len(o2) == 1 {
+					if (c.Status == "violation" && o2[0].Status == "violation" && o2[0].Label == c.Label) || (c.Status == "panic-escape" && o2[0].Status == "panic") {
+						o, rep = o2[0], true
+					}
+				}
+			}
 			c.Native = o.Status + " " + o.Label + " " + o.Msg
 			cexs = append(cexs, cexOut{c, rep, true})
 		}
